@@ -120,3 +120,10 @@ impl RequestCall {
         &mut self.remaining_responses
     }
 }
+
+#[cfg(feature = "verif-hooks")]
+impl RequestCall {
+    pub fn verif_remaining_responses(&self) -> Option<u64> {
+        self.remaining_responses
+    }
+}
